@@ -124,6 +124,21 @@ def rotateChecked (fl : K → Int) (b : Box K) (U : M3 Int) (atoms : List (Atom 
   | some (nb, kept) =>
     if kept.length = (M3.det U).natAbs * atoms.length then .ok (nb, kept) else .error "filter"
 
+/-- one atom moved by whole cell vectors into the cell `vects` at the Cartesian origin. -/
+def wrapAtom (fl : K → Int) (b : Box K) (a : Atom K) : Atom K :=
+  let s := (⟨b.vects, ⟨0, 0, 0⟩⟩ : Box K).cartToRel a.pos
+  { a with pos := a.pos - M3.vecMul ⟨((fl s.x : Int) : K), ((fl s.y : Int) : K), ((fl s.z : Int) : K)⟩ b.vects }
+
+/-- the "no rotation" shortcut (`uvws` = identity): the system itself, its cell re-expressed around the Cartesian
+    origin with the atoms' Cartesian positions kept; `normalize` then wraps every atom into the cell. -/
+def rotateIdentity (fl : K → Int) (b : Box K) (atoms : List (Atom K)) : Box K × List (Atom K) :=
+  (⟨b.vects, ⟨0, 0, 0⟩⟩, atoms.map (wrapAtom fl b))
+
+/-- `System.rotate` up to `normalize`: identity shortcut, otherwise bounding supercell + filter + count test. -/
+def rotate (fl : K → Int) (b : Box K) (U : M3 Int) (atoms : List (Atom K)) :
+    Except String (Box K × List (Atom K)) :=
+  if U = M3.one then .ok (rotateIdentity fl b atoms) else rotateChecked fl b U atoms
+
 end
 
 end Atomman.C04
